@@ -51,6 +51,13 @@ def _mc_s3(label: str, clients: str, epw: bool, ar: bool, invs: Sequence[str], *
     return tlc.run_tlc("MC_S3Lock", cfg, workers=workers, timeout_s=880, label=label, **kw)
 
 
+def _mc_s3_live(label: str, props: Sequence[str], epw: bool, ar: bool, *, workers: int = 6) -> Any:
+    cfg = tlc.make_cfg(spec="LiveSpec", properties=props,
+                       constants={"Clients": {"A", "B"}, "Lease": 2, "Timeout": 2, "MaxNow": 4, "MaxRounds": 1, "EtagPerWrite": epw, "AtomicRelease": ar,
+                                  "MaxWrites": 4}, check_deadlock=False)
+    return tlc.run_tlc("MC_S3LockLive", cfg, workers=workers, timeout_s=880, label=label)
+
+
 def _mc_fl(label: str, lockers: str, invs: Sequence[str], *, mode: str = "flock", unlink: bool = False, blocking: bool = False, die: bool = True,
            maxnow: int = 3, rounds: int = 2, timeout: int = 1, stale: int = 2, workers: int = 4, live: Sequence[str] = ()) -> Any:
     cfg = tlc.make_cfg(spec="LiveSpec" if live else "Spec", properties=live, constants={"Lockers": set(lockers), "ProcOf": tlc.Raw("<- MC_ProcOf"), "Timeout": timeout, "StaleAge": stale,
@@ -266,6 +273,9 @@ def run(ctx: Ctx) -> None:
                                live=["AcquireReturns"], maxnow=3 if quick else 4, rounds=2 if quick else 3, timeout=1 if quick else 2)
     f["fl_live_blocking"] = pool.submit(_mc_fl, "FLock ab blocking flock: AcquireReturns (must fail)", "ab", [], live=["AcquireReturns"], blocking=True, workers=2)
     if not quick:
+        f["s3_live"] = pool.submit(_mc_s3_live, "S3Lock AB liveness: every acquire()/is_held()/release() call returns within the PUT budget; read-only loops outright",
+                                   ["CallReturns", "ReadOnlyCallsReturn"], epw, ar)
+        f["s3_live_unbudgeted"] = pool.submit(_mc_s3_live, "S3Lock AB liveness without the budget clause (must fail)", ["CallReturnsUnbudgeted"], epw, ar)
         f["fl_live3"] = pool.submit(_mc_fl, "FLock abc liveness: every acquire()/release() call returns", "abc", [], live=["AcquireReturns"], maxnow=3, rounds=2, workers=6)
     f["fl_reach1"] = pool.submit(_mc_fl, "FLock ab reachability: a blocked acquirer times out (must fail)", "ab", ["NeverTimedOut"], workers=2)
     f["fl_reach2"] = pool.submit(_mc_fl, "FLock ab reachability: acquisition after a death (must fail)", "ab", ["NeverAcquiredAfterDeath"], workers=2)
@@ -401,6 +411,8 @@ def run(ctx: Ctx) -> None:
     _must_fail(ctx, f["fl_live_blocking"].result(), "Liveness", "a blocked flock() has no enabled step while the holder sits on the lock")
     if "fl_live3" in f:
         _must_hold(ctx, f["fl_live3"].result(), "FLock-liveness")
+        _must_hold(ctx, f["s3_live"].result(), "S3Lock-liveness")
+        _must_fail(ctx, f["s3_live_unbudgeted"].result(), "Liveness", "the polling loop of acquire() may spend the PUT budget between two clock ticks")
     _must_fail(ctx, f["fl_reach2"].result(), "NeverAcquiredAfterDeath", "death then acquisition reachable")
     if "fl_excl_ok" in f:
         _must_hold(ctx, f["fl_excl_ok"].result(), "FLock-excl-extension")
